@@ -261,56 +261,62 @@ Fixpoint mend_go (acc : option nat) (m : rmatch) : option nat :=
 Definition mbegin (m : rmatch) : nat := match mbegin_go None m with Some x => x | None => 0 end.
 Definition mend (m : rmatch) : nat := match mend_go None m with Some x => x | None => 0 end.
 
-(* the buffered next match of every selected expression = head of its remaining matches *)
-Fixpoint best_from (i : nat) (ss : list (list rmatch)) (cur : option (nat * rmatch))
-  : option (nat * rmatch) :=
-  match ss with
-  | [] => cur
-  | s :: ss' =>
-      let cur' := match s with
-                  | [] => cur
-                  | m :: _ =>
-                      match cur with
-                      | None => Some (i, m)
-                      | Some (_, bm) => if mbegin m <? mbegin bm then Some (i, m) else cur
-                      end
-                  end in
-      best_from (S i) ss' cur'
-  end.
-
-Fixpoint drop_overlap (mb me : nat) (s : list rmatch) : list rmatch :=
-  match s with
-  | m2 :: s' => if (mb <=? mbegin m2) && (mbegin m2 <? me) then drop_overlap mb me s' else s
-  | [] => []
-  end.
-
+(* the merge of FindRegexIter::next(), for any begin / end measure of a match (the code's:
+   Match::begin, Match::end) *)
 Fixpoint mapi_from {X Y} (i : nat) (f : nat -> X -> Y) (l : list X) : list Y :=
   match l with
   | [] => []
   | x :: l' => f i x :: mapi_from (S i) f l'
   end.
 
-(* one FindRegexIter::next() on the buffers: the chosen (stream index, match) and the new buffers *)
-Definition regex_step (allow_overlap : bool) (ss : list (list rmatch))
-  : option (nat * rmatch * list (list rmatch)) :=
-  match best_from 0 ss None with
-  | None => None
-  | Some (i, m) =>
-      let ss1 := if allow_overlap then ss
-                 else mapi_from 0 (fun j s => if j =? i then s else drop_overlap (mbegin m) (mend m) s) ss in
-      Some (i, m, mapi_from 0 (fun j s => if j =? i then tl s else s) ss1)
-  end.
+Section Merge.
+  Context {X : Type}.
+  Variable kb ke : X -> nat.
 
-Fixpoint regex_merge (fuel : nat) (allow_overlap : bool) (ss : list (list rmatch))
-  : list (nat * rmatch) :=
-  match fuel with
-  | 0 => []
-  | S fuel' =>
-      match regex_step allow_overlap ss with
-      | None => []
-      | Some (i, m, ss') => (i, m) :: regex_merge fuel' allow_overlap ss'
-      end
-  end.
+  (* the buffered next match of every selected expression = head of its remaining matches;
+     the best one: smallest begin, the first such *)
+  Fixpoint best_from (i : nat) (ss : list (list X)) (cur : option (nat * X)) : option (nat * X) :=
+    match ss with
+    | [] => cur
+    | s :: ss' =>
+        let cur' := match s with
+                    | [] => cur
+                    | m :: _ =>
+                        match cur with
+                        | None => Some (i, m)
+                        | Some (_, bm) => if kb m <? kb bm then Some (i, m) else cur
+                        end
+                    end in
+        best_from (S i) ss' cur'
+    end.
+
+  (* while the buffered match begins inside [mb, me): take the iterator's next *)
+  Fixpoint drop_overlap (mb me : nat) (s : list X) : list X :=
+    match s with
+    | m2 :: s' => if (mb <=? kb m2) && (kb m2 <? me) then drop_overlap mb me s' else s
+    | [] => []
+    end.
+
+  (* one FindRegexIter::next() on the buffers: the chosen (stream index, match) and the new buffers *)
+  Definition regex_step (allow_overlap : bool) (ss : list (list X)) : option (nat * X * list (list X)) :=
+    match best_from 0 ss None with
+    | None => None
+    | Some (i, m) =>
+        let ss1 := if allow_overlap then ss
+                   else mapi_from 0 (fun j s => if j =? i then s else drop_overlap (kb m) (ke m) s) ss in
+        Some (i, m, mapi_from 0 (fun j s => if j =? i then tl s else s) ss1)
+    end.
+
+  Fixpoint regex_merge (fuel : nat) (allow_overlap : bool) (ss : list (list X)) : list (nat * X) :=
+    match fuel with
+    | 0 => []
+    | S fuel' =>
+        match regex_step allow_overlap ss with
+        | None => []
+        | Some (i, m, ss') => (i, m) :: regex_merge fuel' allow_overlap ss'
+        end
+    end.
+End Merge.
 
 (* match_to_result: one group's text selection *)
 Definition conv_group (t : text) (bb : nat) (g : nat * nat) : out (nat * nat) :=
@@ -373,7 +379,7 @@ Definition find_text_regex (t : text) (es : list rexpr) (allow_overlap : bool) (
   match sel_text t sb se with
   | OOk (bb, _) =>
       let sel := select_from 0 (2 <? length es) es in
-      let merged := regex_merge (S (total_matches sel)) allow_overlap (map (fun e => snd (snd e)) sel) in
+      let merged := regex_merge mbegin mend (S (total_matches sel)) allow_overlap (map (fun e => snd (snd e)) sel) in
       collect (map (fun im =>
                       match nth_error sel (fst im) with
                       | Some (eidx, (caps, _)) => match_to_result t bb caps eidx (snd im)
